@@ -361,5 +361,74 @@ def SingleCoherent (tb : List (Nat × BTR)) (single : Nat → Option (List Funct
     (∀ q ∈ pairs (gs.map (·.addr)), ∀ b c, (q.1, b, c) ∈ reqLinks tb ++ reqSuccs tb ↔ (b = q.2 ∧ c = none)) ∧
     (∀ g, gs.getLast? = some g → ∀ b c, (g.addr, b, c) ∈ reqLinks tb ++ reqSuccs tb ↔ (b, c) ∈ succs)
 
+-- ------------------------------------------------------------------------------------------------
+-- differently guarded transfers between the same two instructions (merged by OR since falcon fed1e64)
+
+/-- `c` evaluates in `σ` to a 0/1 constant of width one (what the guards of the lifters do wherever their flags
+    are defined; cf. C05's `guards_exactly_one`) -/
+def GuardBit (σ : State) (c : Expr) : Prop :=
+  ∃ e, σ.symbolize c = .ok e ∧ e.bits = 1 ∧ ∃ a, e.eval = .ok a ∧ a.bits = 1 ∧ a.val ≤ 1
+
+/-- every guard of a requested transfer is a bit in `σ` -/
+def GuardsTyped (tb : List (Nat × BTR)) (manual : List ManualEdge) (σ : State) : Prop :=
+  ∀ q ∈ reqList tb manual, ∀ g, q.2.2 = some g → GuardBit σ g
+
+/-- executable form of `GuardBit` (driver) -/
+def guardBitB (σ : State) (c : Expr) : Bool :=
+  match σ.symbolize c with
+  | .ok e => e.bits == 1 && (match e.eval with | .ok a => a.bits == 1 && decide (a.val ≤ 1) | _ => false)
+  | _ => false
+
+/-- what `linkOrMerge` does to the guard of an existing edge -/
+def mergeGuard (existing new : Option Expr) : Option Expr :=
+  match existing, new with
+  | some e, some c => if e = c then some e else some (.bin .or e c)
+  | some _, none => none
+  | none, _ => none
+
+/-- successors of one result with duplicate targets merged the way the successor loop merges their edges: the
+    first occurrence of a target keeps its place and absorbs the guards of the later ones -/
+def normSuccsAux : Nat → List (Nat × Option Expr) → List (Nat × Option Expr)
+  | 0, _ => []
+  | _ + 1, [] => []
+  | fuel + 1, (s, c) :: rest =>
+    let same := rest.filter (fun q => q.1 == s)
+    let others := rest.filter (fun q => q.1 != s)
+    (s, same.foldl (fun g q => mergeGuard g q.2) c) :: normSuccsAux fuel others
+
+def normSuccs (l : List (Nat × Option Expr)) : List (Nat × Option Expr) := normSuccsAux l.length l
+
+/-- the normalised table: same results, duplicate successor targets merged -/
+def normalize (tb : List (Nat × BTR)) : List (Nat × BTR) :=
+  tb.map (fun p => (p.1, { p.2 with succs := normSuccs p.2.succs }))
+
+/-- `tb'` requests the same transfers as `tb`, except that two differently guarded requests of `tb` for one pair
+    of instructions may appear in `tb'` as ONE request guarded by their disjunction (or by nothing) -/
+structure MergedOf (tb tb' : List (Nat × BTR)) (manual : List ManualEdge) : Prop where
+  /-- every request of `tb'` is a request of `tb` or the disjunction of two -/
+  back : ∀ q ∈ reqList tb' manual, q ∈ reqList tb manual ∨
+    ∃ c₁ c₂, q.2.2 = some (.bin .or c₁ c₂) ∧ (q.1, q.2.1, some c₁) ∈ reqList tb manual ∧
+      (q.1, q.2.1, some c₂) ∈ reqList tb manual
+  /-- every request of `tb` is a request of `tb'`, or absorbed by an unconditional one, or a disjunct of one -/
+  forth : ∀ q ∈ reqList tb manual, q ∈ reqList tb' manual ∨ (q.1, q.2.1, none) ∈ reqList tb' manual ∨
+    ∃ c c', q.2.2 = some c ∧ (q.1, q.2.1, some c') ∈ reqList tb manual ∧
+      ((q.1, q.2.1, some (.bin .or c c')) ∈ reqList tb' manual ∨ (q.1, q.2.1, some (.bin .or c' c)) ∈ reqList tb' manual)
+
+/-- executable form of `MergedOf` (driver) -/
+def mergedOfB (tb tb' : List (Nat × BTR)) (manual : List ManualEdge) : Bool :=
+  let r := reqList tb manual
+  let r' := reqList tb' manual
+  r'.all (fun q => r.contains q ||
+    (match q.2.2 with
+     | some (.bin .or c₁ c₂) => r.contains (q.1, q.2.1, some c₁) && r.contains (q.1, q.2.1, some c₂)
+     | _ => false)) &&
+  r.all (fun q => r'.contains q || r'.contains (q.1, q.2.1, none) ||
+    (match q.2.2 with
+     | some c => r.any (fun q₂ => q₂.1 == q.1 && q₂.2.1 == q.2.1 &&
+         (match q₂.2.2 with
+          | some c' => r'.contains (q.1, q.2.1, some (.bin .or c c')) || r'.contains (q.1, q.2.1, some (.bin .or c' c))
+          | none => false))
+     | none => false))
+
 end Assemble
 end Falcon
